@@ -157,6 +157,30 @@ def slow_reader_large_response(chk, rng, stack, callers):
             chk.violation("status/body changed on the way to the client", d, expected=(200, size), observed=(200, len(rest)))
 
 
+def first_request_before_host_connects(chk, stack, callers):
+    """the host takes about a second to accept the agent's connection; the client's first request is already waiting: it is relayed
+    once the connection is there, not answered by the proxy in the host's place"""
+    host = e2e.SlowAcceptHost(e2e.OTHER[0], 8124, 0.3)
+    try:
+        c = callers.caller(0, "curl", True)
+        conn = stack.connect(audit=(0, c["pid"], 1, e2e.OTHER[0], 8124))
+        t0 = time.time()
+        try:
+            r = conn.request(e2e.build_request("GET", "/first?x=1", [(b"Host", b"h")]), b"GET", 12.0)
+            r2 = conn.request(e2e.build_request("GET", "/second?x=1", [(b"Host", b"h")]), b"GET", 6.0) if r is not None else None
+        except OSError:
+            r = r2 = None
+        conn.close()
+        chk.case(nontrivial_key=("slow-accepting-host", r and r["status"], r2 and r2["status"]))
+        chk.count("first_request_before_host_connects")
+        d = {"host": "accepts the agent's connection after about a second", "first": r and (r["status"], r["body"][:20]), "second": r2 and r2["status"],
+             "seconds": round(time.time() - t0, 2), "requests_seen_by_host": len(host.requests)}
+        if r is None or r["status"] != 200 or r["body"] != b"slow-host":
+            chk.violation("authorized request not relayed exactly once", d, expected="200 from the host once it accepts", observed=r and r["status"])
+    finally:
+        host.close()
+
+
 def host_closes_connection(chk, rng, stack, callers):
     """the host ends its connection with `Connection: close`; the client connection shares that upstream, so the next request of
     the client must not be answered by the proxy in the host's place: either the client connection ends too (the client
@@ -251,6 +275,7 @@ def run(chk):
         chk.sample(runner.describe(runner.observations[1]))
         host_closes_connection(chk, rng, stack, callers)
         slow_reader_large_response(chk, rng, stack, callers)
+        first_request_before_host_connects(chk, stack, callers)
         after = pipe.abort_storm(stack, callers, n=30 if chk.tier == "quick" else 200)
         chk.case(nontrivial_key=("abort-storm", after and after["status"]))
         if after is None or after["status"] != 200 or after["body"] != b"ok":
